@@ -6,6 +6,9 @@ VERIF = os.path.dirname(os.path.dirname(os.path.abspath(__file__)))
 EXTRA = {"C03": ["C07"], "C07": ["C03", "C04"], "C09": ["C10"], "C08": ["C06"], "C10": ["C12", "C04"], "C11": ["C14"], "C17": ["C13", "C05"]}
 claimed = {c["property_id"] for c in json.load(open(os.path.join(VERIF, "MANIFEST.json")))["checks"]}
 rows = []
+out_name = "RESULTS.md"
+if "--out" in sys.argv:
+    i = sys.argv.index("--out"); out_name = sys.argv[i + 1]; del sys.argv[i:i + 2]
 names = sorted(os.listdir(os.path.join(VERIF, "seeded")))
 for name in names:
     d = os.path.join(VERIF, "seeded", name)
@@ -25,7 +28,7 @@ for name in names:
     except Exception as exc:
         rows.append((name, ",".join(checks), f"error: {exc} {out[-200:]}"))
     print(rows[-1], flush=True)
-with open(os.path.join(VERIF, "seeded", "RESULTS.md"), "w") as handle:
+with open(os.path.join(VERIF, "seeded", out_name), "w") as handle:
     handle.write("| seeded change | checks run | result |\n|---|---|---|\n")
     for row in rows:
         meta = json.load(open(os.path.join(VERIF, "seeded", row[0], "meta.json")))
